@@ -71,8 +71,10 @@ Schema == [
   \* block header in the nested (Babbage) and the flattened (Alonzo) form the decoder accepts (rust/src/serialization/block/header_body.rs)
   vrf_cert |-> Arr(<<F(BytesR(0, 64)), F(BytesR(80, 80))>>),
   operational_cert |-> Arr(<<F(H32), F(U32), F(U32), F(BytesR(64, 64))>>),
-  header_body |-> Alt(<< Arr(<<F(U32), F(UInt), F(Alt(<<Null, H32>>)), F(H32), F(H32), F(Ref("vrf_cert")), F(U32), F(H32), F(Ref("operational_cert")), F(Arr(<<F(U32), F(U32)>>))>>),
-                         Arr(<<F(U32), F(UInt), F(Alt(<<Null, H32>>)), F(H32), F(H32), F(Ref("vrf_cert")), F(Ref("vrf_cert")), F(U32), F(H32), F(H32), F(U32), F(U32), F(BytesR(64, 64)), F(U32), F(U32)>>) >>),
+  header_body |-> Alt(<< NF(Arr(<<F(U32), F(UInt), F(Alt(<<Null, H32>>)), F(H32), F(H32), F(Ref("vrf_cert")), F(U32), F(H32), F(Ref("operational_cert")), F(Arr(<<F(U32), F(U32)>>))>>), "header-nested-form"),
+                         Arr(<<F(U32), F(UInt), F(Alt(<<Null, H32>>)), F(H32), F(H32), F(Ref("vrf_cert")), F(Ref("vrf_cert")), F(U32), F(H32), F(H32), F(U32), F(U32), F(BytesR(64, 64)), F(U32), F(U32)>>),
+                         \* what the library itself writes for the single-VRF-result form: certificate and version as embedded groups
+                         Arr(<<F(U32), F(UInt), F(Alt(<<Null, H32>>)), F(H32), F(H32), F(Ref("vrf_cert")), F(U32), F(H32), F(H32), F(U32), F(U32), F(BytesR(64, 64)), F(U32), F(U32)>>) >>),
   header |-> Arr(<<F(Ref("header_body")), F(BytesR(448, 448))>>),
   block |-> Arr(<<F(Ref("header")), F(List(Ref("body"), 0)), F(List(Ref("witness_set"), 0)), F(Table(U32, Ref("auxiliary_data"), 0)), F(List(U32, 0))>>),
   witness_set |-> Map(<<Q(0, Set(Ref("vkeywitness"), 1)), Q(1, Set(Ref("native_script"), 1)), Q(2, Set(Ref("bootstrap_witness"), 1)),
